@@ -92,8 +92,9 @@ def build(P):
     P.verify(f"{ST}:StatusRate.rate", name="StatusRate.rate",
              contract=Contract(f"{ST}:StatusRate.rate", cut=False, params={"self": make_rate},
                                requires=E("status_frames_are_among_the_total", "len(self.status_frame_nums) <= len(self.total_frame_nums)"),
-                               ensures=E("ratio_of_frame_counts", "implies(len(self.status_frame_nums) > 0, result == len(self.status_frame_nums) / len(self.total_frame_nums))",
-                                         "in_unit_interval_when_defined", "implies(len(self.status_frame_nums) > 0, 0 < result and result <= 1)")))
+                               ensures=E("ratio_of_frame_counts", "implies(len(self.total_frame_nums) > 0, result == len(self.status_frame_nums) / len(self.total_frame_nums))",
+                                         "in_unit_interval_when_defined", "implies(len(self.total_frame_nums) > 0, 0 <= result and result <= 1)",
+                                         "a_status_never_seen_has_rate_zero", "implies(len(self.total_frame_nums) > 0 and len(self.status_frame_nums) == 0, result == 0)")))
     # ---------------------------------------------------------------- get_scene_rates: a distribution over the four statuses
     wf = lambda s: f"len({s}.total_frame_nums) == len({s}.tp_frame_nums) + len({s}.fp_frame_nums) + len({s}.tn_frame_nums) + len({s}.fn_frame_nums)"
     SL = "status_list"
